@@ -469,6 +469,9 @@ impl B {
                     _ => (self.const_f32_tensor(&[]), DType::F32, 0, 1.0),
                 };
                 let nb = xnb * v.mag.powi(v.len.unwrap() as i32).max(1.0);
+                if nb > 1.0e6 {
+                    return;
+                }
                 let o = self.node("Expand", vec![x, v.name], vec![], 1).remove(0);
                 self.add_ten(o, dt, r.max(v.len.unwrap()), nb);
             }
@@ -553,7 +556,8 @@ impl B {
                         self.add_ten(o, t.dt, t.rank, (t.nb.powf(1.0 / t.rank as f64) + 12.0).powi(t.rank as i32));
                     }
                     1 => {
-                        let Some(t) = self.pick_ten(s[2], |t| t.rank >= 1 && t.dt == DType::F32) else { return };
+                        // (TopK over tens of thousands of lanes takes seconds per run: small tensors only)
+                        let Some(t) = self.pick_ten(s[2], |t| t.rank >= 1 && t.dt == DType::F32 && t.nb <= 4096.0) else { return };
                         let k = self.vec_of_len(s[3], 1, &[s[4] % 3 + 4], 0, 1.0e6);
                         let ax = if s[5] % 2 == 0 { -1 } else { idx(s[5], t.rank) as i64 };
                         let o = self.node("TopK", vec![t.name, k], vec![("axis", Attr::Int(ax))], 2);
@@ -637,7 +641,8 @@ impl B {
             _ => {
                 // broadcasting binary op / Concat / Where between tensors
                 let Some(a) = self.pick_ten(s[1], |t| t.dt == DType::F32) else { return };
-                let Some(b) = self.pick_ten(s[2], |t| t.dt == DType::F32) else { return };
+                // broadcasting can multiply the element counts: keep the product small
+                let Some(b) = self.pick_ten(s[2], |t| t.dt == DType::F32 && t.nb * a.nb <= 1.0e6) else { return };
                 match s[3] % 4 {
                     0 if a.rank == b.rank && a.rank >= 1 => {
                         let ax = idx(s[4], a.rank) as i64;
